@@ -12,6 +12,7 @@
 -/
 import DnsModel.Lemmas.CompressRun
 import DnsModel.Lemmas.PlainBridge
+import DnsModel.Lemmas.CiTrans
 import DnsModel.Theorems.C05
 namespace Dns.C06
 open Dns Res
@@ -255,4 +256,63 @@ theorem compress_decompressed {p : Bytes} {v : View} (h : parse p = .ok v) {u : 
   obtain ⟨c, hc, hlen, hwf, _⟩ := compress_spec h' L' hpf
   exact ⟨c, hc, hlen, hwf⟩
 
+end Dns.C06
+
+namespace Dns.C06
+open Dns Res
+
+private theorem fits_of_run {u : Bytes} {sec : Section} {l : List RecPos} {off e : Nat} {ob oe : Bool}
+    (h : RRsL u sec l off ob e oe) : ∀ r ∈ l, r.ne + 10 ≤ u.length := by
+  intro r hr
+  obtain ⟨_, _, hpos⟩ := RRsL.mem_pos h r hr
+  exact hpos.2.1
+
+/-- **round trip**: decompressing the compressed packet gives back the input up to the case of
+names — same header, question name equal up to case with the same type and class, and records equal
+one by one up to case -/
+theorem roundtrip {u : Bytes} {v : View} (h : parse u = .ok v) (L : C03.Layout u) (hpf : PointerFree u L) :
+    ∃ c u2, compress u = .ok c ∧ uncompress c = .ok u2 ∧ u2.take 12 = u.take 12 ∧
+      ∃ L2 : C03.Layout u2,
+        (∃ ls ls2, ValidName u 12 ls L.qe ∧ ValidName u2 12 ls2 L2.qe ∧ lsCi ls2 ls ∧
+          (u2.drop L2.qe).take 4 = (u.drop L.qe).take 4) ∧
+        RunCi u u2 L.answers L2.answers ∧ RunCi u u2 L.authority L2.authority ∧
+        RunCi u u2 L.additional L2.additional := by
+  obtain ⟨c, hc, _, hwf, hhdr, _, L', ⟨ls, ls', hvu, hvc, hci, hq4⟩, ca, cn, cr⟩ := compress_spec h L hpf
+  obtain ⟨vc, hpc⟩ := C02.wf_accepted c hwf
+  obtain ⟨Lc, o, ho⟩ := C05.decompress_ok hpc
+  obtain ⟨eq, ea, en, er⟩ := C05.layout_unique Lc L'
+  obtain ⟨_, L2, hq2, ha2, hn2, hr2, _⟩ := C05.output_layout hpc o
+  have hlc : 12 ≤ c.length := hwf.1
+  have hHc : (c.take 12).length = 12 := by simp; omega
+  refine ⟨c, o.bytes, hc, ho, ?_, L2, ?_, ?_, ?_, ?_⟩
+  · rw [← hhdr]
+    simp only [C05.Output.bytes, List.append_assoc]
+    rw [List.take_append_of_le_length (by omega), List.take_of_length_le (by omega)]
+  · obtain ⟨lsc, hvlc, hqc⟩ := o.hq
+    obtain ⟨l2, hvl2, hq2'⟩ := hq2
+    rw [eq] at hvlc hqc
+    have e1 : lsc = ls' := (validName_functional hvlc hvc).1
+    subst e1
+    rw [hqc] at hq2'
+    have e2 : encLabels lsc ++ 0 :: (c.drop L'.qe).take 4 = encLabels l2 ++ 0 :: (o.bytes.drop L2.qe).take 4 := by
+      simpa [List.append_assoc] using hq2'
+    have e3 : lsc = l2 := encLabels_inj (validName_ok hvlc).1 (validName_ok hvl2).1 _ _ e2
+    subst e3
+    have e4 := List.append_cancel_left e2
+    simp only [List.cons.injEq, true_and] at e4
+    exact ⟨ls, lsc, hvu, hvl2, hci, by rw [← e4, hq4]⟩
+  · have hca := o.ha; rw [ea] at hca
+    exact runCi_transfer L'.ha L2.ha hca ha2 ca (fits_of_run L.ha)
+  · have hcn := o.hn; rw [en] at hcn
+    exact runCi_transfer L'.hn L2.hn hcn hn2 cn (fits_of_run L.hn)
+  · have hcr := o.hr; rw [er] at hcr
+    exact runCi_transfer L'.hr L2.hr hcr hr2 cr (fits_of_run L.hr)
+
+end Dns.C06
+
+namespace Dns.C06
+open Dns
+/-! non-vacuity (kernel evaluation of the model): the expanded sample of C05 compresses back to the
+original sample, with the answer's owner name replaced by a pointer to the question -/
+example : compress C05.okExpanded = .ok C02.okPacket := by decide +kernel
 end Dns.C06
